@@ -153,6 +153,16 @@ func (th *thread) block(desc string, cond func() bool) {
 	th.waitDesc = ""
 }
 
+func (th *thread) spinTotal() int {
+	n := 0
+	for _, c := range th.spinAt {
+		if c > n {
+			n = c
+		}
+	}
+	return n
+}
+
 // reschedule picks the next thread/event to run. Called by the baton holder.
 func (th *thread) reschedule(exiting bool) {
 	r := th.run
@@ -200,6 +210,10 @@ func (th *thread) reschedule(exiting bool) {
 				if t != th {
 					others = append(others, t)
 				}
+			}
+			if len(others) == 0 && len(evs) == 0 && th.spinTotal() < 512 {
+				// nobody to give way to yet: keep going (a bounded sequential loop ends by itself)
+				return
 			}
 			if len(others) == 0 && len(evs) == 0 {
 				r.violation("deadlock", "deadlock", fmt.Sprintf("livelock: %s polls in a loop and no other thread or event can make progress", th.name), nil, th.top)
@@ -630,7 +644,9 @@ func selectOp(fr *frame, instr *ssa.Select) value {
 			th.spinAt, th.spinEpoch = map[ssa.Instruction]int{}, r.schedEpoch
 		}
 		th.spinAt[instr]++
-		if th.spinAt[instr] >= 2 {
+		// a legitimate sequential loop may poll the same select a few times; a busy-wait repeats it
+		// without bound. 16 repetitions with nobody else running are taken as busy-waiting.
+		if th.spinAt[instr] >= 16 {
 			th.mustYield = true
 			th.reschedule(false)
 			th.mustYield = false
